@@ -476,6 +476,62 @@ def run_check(tier, seed):
                           dict(proof=descr, final=sstr(th), reproduce='theory.check_proof(<proof>)'), key='C02:negative-id')
         run.count(('neg', origin, tuple(s_.show() for s_ in shapes)), nontrivial=True)
 
+    # ---- a placeholder that exists only inside a macro expansion (the macro is registered by this harness, in this
+    #      process only): refused with gaps disallowed, reported with gaps allowed; also through checked_extend
+    from kernel.macro import Macro
+    from kernel.proofterm import ProofTerm
+
+    if 'verif_gap_macro' not in theory.global_macros:
+        @theory.register_macro('verif_gap_macro')
+        class _GapMacro(Macro):
+            """From a premise P concludes the goal G; P --> G is left as a placeholder inside the expansion."""
+            def __init__(self):
+                self.level = 1
+                self.sig = Term
+                self.limit = None
+
+            def get_proof_term(self, goal, pts):
+                imp = ProofTerm.sorry(Thm(Implies(pts[0].prop, goal)))
+                return imp.implies_elim(pts[0])
+    for _ in range(30 if tier == 'quick' else 300):
+        m = r.choice([0, 0, 1, 2])
+        pre = [Shape((k_,), 'theorem', 'trueI') for k_ in range(m)]
+        P_, G_ = r.choice(FORMS), r.choice(FORMS)
+        body = [Shape((m,), 'assume', P_), Shape((m + 1,), 'verif_gap_macro', G_, [(m,)]), Shape((m + 2,), 'implies_intr', P_, [(m + 1,)])]
+        if r.random() < 0.4:
+            # the macro step inside a block
+            body = [Shape((m,), 'subproof', sub=[Shape((m, 0), 'assume', P_), Shape((m, 1), 'verif_gap_macro', G_, [(m, 0)]),
+                                                  Shape((m, 2), 'implies_intr', P_, [(m, 1)])])]
+        shapes = pre + body
+        descr = ' | '.join(s_.show() for s_ in shapes)
+        for ng in (True, False):
+            (verdict, th, gaps, prf), err = run_impl(shapes, ng)
+            run.stat('macro-gap:ng=%s:%s' % (ng, verdict))
+            run.count(('macro-gap', descr, ng), nontrivial=True)
+            inner = Thm(Implies(P_, G_))
+            if ng and verdict == 'accept':
+                run.violation('property', 'a placeholder inside a macro expansion is tolerated with gaps disallowed: %s' % descr[:300],
+                              dict(proof=descr, final=sstr(th), macro='verif_gap_macro: from P concludes G, expansion = sorry(|- P --> G) then implies_elim',
+                                   reproduce='theory.check_proof(<proof>, rpt, no_gaps=True)'), key='C02:gap-tolerated')
+            if not ng and verdict == 'accept' and sstr(inner) not in [sstr(g_) for g_ in gaps]:
+                run.violation('property', 'a placeholder inside a macro expansion is not reported as a gap: %s' % descr[:300],
+                              dict(proof=descr, reported=[sstr(g_) for g_ in gaps], expected=sstr(inner)), key='C02:gaps-inexact')
+        # as the proof of an extension
+        thy2 = copy.copy(theory.thy)
+        stated = Thm(Implies(P_, G_))
+        try:
+            rep = thy2.checked_extend([extension.Theorem('verif_gap_thm', stated, build_proof(
+                [Shape((0,), 'assume', P_), Shape((1,), 'verif_gap_macro', G_, [(0,)]), Shape((2,), 'implies_intr', P_, [(1,)])]))])
+            proved = thy2.has_theorem('verif_gap_thm') and not any(n_ == 'verif_gap_thm' for n_, _ in rep.get_axioms())
+            run.stat('macro-gap:extend:' + ('proved' if proved else 'axiom'))
+            if proved:
+                run.violation('property', 'checked_extend admits %s as proved although its proof has a placeholder inside a macro expansion' % sstr(stated),
+                              dict(stated=sstr(stated), axioms_reported=[str(a_) for a_ in rep.get_axioms()]), key='C02:extend-unchecked')
+        except RecursionError:
+            raise
+        except Exception as e:
+            run.stat('macro-gap:extend-refused:' + type(e).__name__)
+
     # ---- checked_extend
     ext_cases = []
     n_ext = 150 if tier == 'quick' else 1500
